@@ -38,7 +38,7 @@ META = dict(
               "real library (hooked) + ThreadSanitizer stress",
     design_ref="DESIGN.md section 5, C30")
 
-TSAN = "halt_on_error=0:exitcode=66:report_signal_unsafe=0:die_after_fork=0:second_deadlock_stack=0"
+TSAN = "halt_on_error=0:exitcode=66:report_signal_unsafe=0:die_after_fork=0:second_deadlock_stack=0:symbolize=0"
 
 
 # --------------------------------------------------------------------------- tree inspection
@@ -112,8 +112,8 @@ def op_tokens(rng, n, nops, nv=4):
 def gen_x(rng, tier):
     n = rng.choice([2, 2, 3, 3, 4])
     toks, setup_ops = op_tokens(rng, n, 3 if tier == "quick" else 5)
-    # thread 0 first sets the sharing up (malloc = 3 segments, every other op one), then anything goes
-    sched = ["s0"] * (setup_ops + 2)
+    # thread 0 first sets the sharing up (malloc = 4 segments, every other op one), then anything goes
+    sched = ["s0"] * (setup_ops + 3)
     total = sum(1 for t in toks) * 3
     k = rng.randint(total // 3, total)
     if rng.random() < 0.3:
@@ -130,30 +130,31 @@ def gen_z(rng, tier):
     n = rng.choice([2, 3, 4, 8, 16] if tier == "thorough" else [2, 4, 8, 16])
     toks, _ = op_tokens(rng, n, 4)
     iters = rng.choice([10, 20]) if tier == "quick" else rng.choice([20, 50])
-    return " ".join(["Z%d" % n, "r%d" % rng.randrange(1, 10 ** 6), "i%d" % iters] + toks)
+    return " ".join(["Z%d.%d.%d" % (n, iters, rng.randrange(1, 10 ** 6))] + toks)
 
 
 def directed(hook):
     z = [
         # eight threads let go of one object at the same time
-        "Z8 r1 i40 t0:M0:8 " + " ".join("t0:S0:%d:0" % k for k in range(1, 8)),
+        "Z8.40.1 t0:M0:8 " + " ".join("t0:S0:%d:0" % k for k in range(1, 8)),
         # four threads let go of four slices of one buffer at the same time
-        "Z4 r2 i40 t0:M0:8 t0:L0:1 t0:L0:2 t0:L0:3 t0:S1:1:0 t0:S2:2:0 t0:S3:3:0",
+        "Z4.40.2 t0:M0:8 t0:L0:1 t0:L0:2 t0:L0:3 t0:S1:1:0 t0:S2:2:0 t0:S3:3:0",
         # everybody allocates and frees: the allocation counter
-        "Z8 r3 i40 " + " ".join("t%d:M0:%d t%d:M1:%d t%d:D0 t%d:M2:8" % (t, 8 * (t + 1), t, 16, t, t) for t in range(8)),
-        "Z16 r4 i10 t0:M0:64 " + " ".join("t0:S0:%d:0" % k for k in range(1, 16)) + " " + " ".join("t%d:L0:1 t%d:C1:2" % (k, k) for k in range(1, 16)),
+        "Z8.40.3 " + " ".join("t%d:M0:%d t%d:M1:%d t%d:D0 t%d:M2:8" % (t, 8 * (t + 1), t, 16, t, t) for t in range(8)),
+        "Z16.10.4 t0:M0:64 " + " ".join("t0:S0:%d:0" % k for k in range(1, 16)) + " " + " ".join("t%d:L0:1 t%d:C1:2" % (k, k) for k in range(1, 16)),
     ]
     m = ["M1 c1", "M1 c3"]
     x = []
     if hook:
         x = [
             # the Coq witnesses (Properties_C30.v) at the granularity of the schedule points
-            "X2 t0:M0:8 t0:S0:1:0 t0:D0 t1:D0 s0 s0 s0 s0 s0 s1 s0 s1",
-            "X2 t0:M0:8 t0:S0:1:0 t0:D0 t1:D0 s0 s0 s0 s0 s0 s1 s1 s1 s1 s1 s1 s0",
-            "X2 t0:M0:8 t0:L0:1 t0:S1:1:0 t0:D1 t0:D0 t1:D0 s0 s0 s0 s0 s0 s0 s0 s0 s0 s1 s1 s0 s1",
-            "X3 t0:M0:8 t0:S0:1:0 t0:S0:2:0 t0:D0 t1:D0 t2:D0 s0 s0 s0 s0 s0 s0 s1 s2 s0 s1 s2",
-            "X2 t0:M0:8 t1:M0:16 s0 s1 s0 s1 s0 s1",
-            "X2 t0:M0:8 t1:M0:16 t0:D0 t1:D0 s0 s0 s0 s1 s1 s1 s0 s1 s0 s1 s0 s1 s0 s1",
+            # (a malloc is 4 segments: constructors | counter | return-copy + removal of the local | its test)
+            "X2 t0:M0:8 t0:S0:1:0 t0:D0 t1:D0 s0 s0 s0 s0 s0 s0 s1 s0 s1",
+            "X2 t0:M0:8 t0:S0:1:0 t0:D0 t1:D0 s0 s0 s0 s0 s0 s0 s1 s1 s1 s1 s1 s1 s0",
+            "X2 t0:M0:8 t0:L0:1 t0:S1:1:0 t0:D1 t0:D0 t1:D0 s0 s0 s0 s0 s0 s0 s0 s0 s0 s0 s1 s1 s0 s1",
+            "X3 t0:M0:8 t0:S0:1:0 t0:S0:2:0 t0:D0 t1:D0 t2:D0 s0 s0 s0 s0 s0 s0 s0 s1 s2 s0 s1 s2",
+            "X2 t0:M0:8 t1:M0:16 s0 s1 s0 s1 s0 s1 s0 s1",
+            "X2 t0:M0:8 t1:M0:16 t0:D0 t1:D0 s0 s0 s0 s0 s1 s1 s1 s1 s0 s1 s0 s1 s0 s1 s0 s1",
         ]
     return x + z + m
 
@@ -165,7 +166,7 @@ def nontrivial(case):
     shares = any(re.match(r"^t\d+:[SL]", x) for x in t)
     drops = any(re.match(r"^t\d+:D", x) for x in t)
     if case.startswith("Z"):
-        return shares and int(t[0][1:]) >= 2
+        return shares and int(t[0][1:].split(".")[0]) >= 2
     sched = [x for x in t if re.match(r"^s\d+$", x)]
     return shares and drops and len(set(sched)) >= 2
 
@@ -267,7 +268,7 @@ def run(run, tier, seed, replay_case=None):
     cov["tree_variant"] = variant
     cov["hook_present"] = bool(hook)
     cov["replay_available"] = bool(hook)
-    cov["stress_threads_max"] = max([int(c.split()[0][1:]) for c in cases if c.startswith("Z")] or [0])
+    cov["stress_threads_max"] = max([int(c.split()[0][1:].split(".")[0]) for c in cases if c.startswith("Z")] or [0])
     cov["schedule_entries"] = sum(len(re.findall(r"\bs\d+\b", c)) for c in cases if c.startswith("X"))
     run.assumptions = ["a handle variable is used by one thread at a time; a copy is handed to another thread through a "
                        "synchronised channel (the driver's mutex), as the C++ rules for sharing a non-atomic object require",
